@@ -137,7 +137,7 @@ func checkLabelWiring(c *Ctx) {
 	ruleF := "stream header removal is independent of fragmentation: the bytes the label is sliced from were requested with Peek(n), n >= 2 + size, and the size byte with Peek(n), n >= 2"
 	c.Rule(ruleF)
 	var peeks []*ast.CallExpr
-	ast.Inspect(sr.Decl.Body, func(n ast.Node) bool {
+	inspectFn(sr, func(n ast.Node) bool {
 		if call, ok := n.(*ast.CallExpr); ok {
 			if f := p.Callee(call); f != nil && core.FuncFullName(f) == "bufio.Reader.Peek" && len(call.Args) == 1 {
 				peeks = append(peeks, call)
@@ -145,7 +145,7 @@ func checkLabelWiring(c *Ctx) {
 		}
 		return true
 	})
-	ast.Inspect(sr.Decl.Body, func(n ast.Node) bool {
+	inspectFn(sr, func(n ast.Node) bool {
 		var need ast.Expr
 		var pos ast.Node
 		switch v := n.(type) {
@@ -211,7 +211,7 @@ func checkLabelWiring(c *Ctx) {
 	for _, e := range xm.Effects {
 		_ = e
 	}
-	ast.Inspect(mk.Decl.Body, func(n ast.Node) bool {
+	inspectFn(mk, func(n ast.Node) bool {
 		as, ok := n.(*ast.AssignStmt)
 		if !ok || len(as.Lhs) != 1 || len(as.Rhs) != 1 {
 			return true
